@@ -14,7 +14,7 @@ func init() {
 		Explanation: "Path rules over the CFG of internal/stream.Reader (all acyclic paths enumerated, Phis resolved per path): (R02.1) the caller's buffer is written only by copy(p, r.unread), and r.unread is only ever a reslice of itself or a slice of r.buf filled from the output of an AEAD.Open whose error is nil on that path; " +
 			"(R02.2) every Open uses r.nonce[:] and nil AD, exactly one incNonce follows the accepted Open on every successful path, and a second Open occurs only as the retry-as-final idiom; (R02.3) readChunk returns last==true exactly on paths where setLastChunkFlag precedes the accepted Open; " +
 			"(R02.4) io.EOF is produced in the package at exactly one place, dominated by last==true and by the 1-byte probe returning io.EOF, and EOF from the chunk read becomes ErrUnexpectedEOF; (R02.5) the short-read path rejects an empty final chunk unless the nonce is zero, before Open; " +
-			"(R02.6) terminal state: the last branch always leaves r.err non-nil, readChunk is called only under r.err==nil and empty r.unread, and its error is stored before it is returned; (R02.7) the payload key is streamKey(fileKey, 16-byte nonce read from the payload); (R02.8) the nonce counter is a correct big-endian increment with carry over bytes len-2..0 that aborts on wrap, and the final flag is the last byte (the rule of C05/C06), so that no two chunk positions share a nonce.",
+			"(R02.6) terminal state: the last branch always leaves r.err non-nil, readChunk is called only under r.err==nil and empty r.unread, and its error is stored before it is returned; (R02.7) the payload key is streamKey(fileKey, 16-byte nonce read from the payload); (R02.8) the nonce counter is a correct big-endian increment with carry over bytes len-2..0 that aborts on wrap, and the final flag is the last byte (the rule of C05/C06), so that no two chunk positions share a nonce. (R02.9) the reader Decrypt returns is the one stream.NewReader made, on every way.",
 		NotDecided:  "that ChaCha20-Poly1305 rejects modified ciphertext.",
 		Assumptions: []string{"AEAD.Open returns a non-nil error unless the ciphertext authenticates under (key, nonce, AD)", "io.ReadFull returns io.ErrUnexpectedEOF on a short read and io.EOF on an empty one"},
 		Technique:   "static analysis: acyclic path enumeration with per-path Phi resolution over go/ssa, dominance guards, EOF-production who-may-produce list",
